@@ -11,7 +11,7 @@ import (
 
 func init() { register("C16", checkC16) }
 
-const feeExpr = "new(uint256.Int).Mul(p0.Tx.GasPrice, uint256.NewInt(p0.Tx.Gas))"
+var feeExpr = mulExpr("new(uint256.Int)", "p0.Tx.GasPrice", "uint256.NewInt(p0.Tx.Gas)")
 
 // guardProtectsSuccess: guard with failing condition cond exists in fn and lies
 // on every path to a success return.
